@@ -152,7 +152,13 @@ def rule_d3(repo, col, memo_attrs=()):
     col.decide("D3", m, sn.node, ok and len(paths) == 2, "_set_node refuses parent indices and writes only self.__nodes",
                "_set_node must raise for an index below the offset and otherwise write self.__nodes[index - offset] only", construct="def _set_node: table", function="ClauseDB._set_node")
     ix = gn.params[1]
+    # the redirected index: the own table applied to the index, directly or through a chain-following helper self.<h>(index) (decided by D8)
     R = "self.__node_redirect.get(%s, %s)" % (ix, ix)
+    for st_ in walk_no_nested(gn.node):
+        if isinstance(st_, ast.Assign) and isinstance(st_.value, ast.Call) and isinstance(st_.value.func, ast.Attribute) and norm(st_.value.func.value) == "self" \
+                and st_.value.func.attr in c.methods and [norm(a_) for a_ in st_.value.args] == [ix] \
+                and any(isinstance(x, ast.Call) and norm(x.func) == "self.__node_redirect.get" for x in ast.walk(c.methods[st_.value.func.attr].node)):
+            R = norm(st_.value)
     tab = {}
     for p in dtable.extract(gn.node):
         cd = dict((x, t) for x, t, _ in p.conds)
@@ -255,6 +261,12 @@ def rule_d7(repo, col):
                 for x in ast.walk(e_):
                     if is_self_attr(x) and x.attr != attr:
                         deps.add(x.attr)
+                        # a helper method of the class in the slice: what it reads is read here (depth 2)
+                        if x.attr in c.methods and x.attr not in seen_names:
+                            seen_names.add(x.attr)
+                            for y in ast.walk(c.methods[x.attr].node):
+                                if is_self_attr(y) and isinstance(y.ctx, ast.Load) and y.attr != attr and y.attr not in c.methods:
+                                    deps.add(y.attr)
                     elif isinstance(x, ast.Name) and x.id in local and x.id not in seen_names:
                         seen_names.add(x.id)
                         frontier.extend(local[x.id])
@@ -348,6 +360,52 @@ def rule_d4(repo, col, memo_attrs=()):
                          "table too; affects error locations only", function="ClauseDB.__init__")
 
 
+def rule_d8(repo, col):
+    """redirects are applied oldest database first: the own redirect table is consulted on an index that the parent chain has already redirected (a node of the base program that
+    an extension redirected can be redirected again by an extension of that extension; looking it up in the own table BEFORE asking the parent misses the second redirect)"""
+    c = repo.cls(MOD, "ClauseDB")
+    m = c.module
+    gn = c.methods.get("get_node")
+    ix = gn.params[1]
+    users = [(nm, f) for nm, f in c.methods.items() if any(isinstance(x, ast.Call) and norm(x.func) == "self.__node_redirect.get" for x in ast.walk(f.node))]
+    reader = None
+    for nm, f in users:
+        if nm == "get_node" or any(isinstance(x, ast.Call) and norm(x.func) == "self.%s" % nm for x in ast.walk(gn.node)):
+            reader = f
+    if reader is None:
+        col.fail("D8", m, gn.node, "get_node does not consult the redirect table at all (neither directly nor through a helper): clauses added to an existing predicate in an extension are "
+                 "never seen by the rules of the base program", construct="ClauseDB.get_node: redirects not resolved", function="ClauseDB.get_node")
+        return
+    prm = reader.params[1]
+    paths = dtable.extract(reader.node, opaque_loops=True)
+    looks = []
+    for p_ in paths:
+        for fn, a, _ in p_.calls:
+            if fn == "self.__node_redirect.get" and a:
+                cd = dict((s_, t_) for s_, t_, _ in p_.conds)
+                looks.append((a[0], cd))
+    if not looks:
+        raise AnalysisError("ClauseDB.%s: look-up in the redirect table not found on any path" % reader.name)
+    bad = []
+    for key, cd in looks:
+        has_parent = cd.get("self.__parent is None") is False or cd.get("self.__parent is not None") is True
+        no_parent = cd.get("self.__parent is None") is True or cd.get("self.__parent is not None") is False
+        through_parent = "self.__parent.%s(" % reader.name in key and key.replace(" ", "").endswith("(%s)" % prm)
+        if no_parent:
+            if key != prm:
+                bad.append("without a parent the table is consulted on %s" % key)
+        elif has_parent:
+            if not through_parent:
+                bad.append("with a parent the table is consulted on %s" % key)
+        else:
+            bad.append("the table is consulted on %s whether or not there is a parent" % key)
+    col.decide("D8", m, reader.node, not bad, "redirects of the whole chain are followed, oldest database first (%s)" % reader.qualname,
+               "%s: %s - the own redirect table must be applied to the index as redirected by the parent chain (self.__parent.%s(index)): with two nested extensions that both add "
+               "clauses to one predicate of the base program, a rule of the base program that calls the predicate otherwise still reaches the first extension's copy (q :- p. with p "
+               "extended twice gives 0.75 instead of 0.875)" % (reader.qualname, "; ".join(sorted(set(bad))), reader.name), construct="ClauseDB.%s: redirect order" % reader.name,
+               function=reader.qualname)
+
+
 def run(repo, col):
     col.rule("D1", "_add_define_node writes through _add_head(create=True)")
     col.rule("D2", "_add_head copy-on-write branch")
@@ -361,3 +419,5 @@ def run(repo, col):
     memo_attrs = rule_d7(repo, col)
     rule_d3(repo, col, memo_attrs)
     rule_d4(repo, col, memo_attrs)
+    col.rule("D8", "redirects are followed through the whole chain of extensions")
+    rule_d8(repo, col)
